@@ -402,17 +402,17 @@ theorem step_entry {pyInt : Str → Option Int} {tl ll : Nat} {tp lp : Char} {ta
   have : ¬ ((v.length : Int) < 0) := by omega
   simp only [this, if_false, Int.toNat_natCast, h3]
 
-theorem generateTlv_cons_ok {tl ll : Nat} {tp lp : Char} {t v : Str} {rest : List (Str × Str)} {g : Str}
-    (h : generateTlv tl ll tp lp ((t, v) :: rest) = .ok g) :
+theorem genEntries_cons_ok {tl ll : Nat} {tp lp : Char} {t v : Str} {rest : List (Str × Str)} {g : Str}
+    (h : genEntries tl ll tp lp ((t, v) :: rest) = .ok g) :
     t.length ≤ tl ∧ (decimal v.length).length ≤ ll ∧
-    ∃ r, generateTlv tl ll tp lp rest = .ok r ∧
+    ∃ r, genEntries tl ll tp lp rest = .ok r ∧
       g = (ljust tl tp t ++ rjust ll lp (decimal v.length) ++ v) ++ r := by
-  simp only [generateTlv] at h
+  simp only [genEntries] at h
   cases he : genEntry tl ll tp lp t v with
   | error e => rw [he] at h; cases h
   | ok e =>
     rw [he] at h
-    cases hr : generateTlv tl ll tp lp rest with
+    cases hr : genEntries tl ll tp lp rest with
     | error e' => rw [hr] at h; cases h
     | ok r =>
       rw [hr] at h
@@ -424,16 +424,16 @@ theorem generateTlv_cons_ok {tl ll : Nat} {tp lp : Char} {t v : Str} {rest : Lis
         · cases he
       · cases he
 
-/-- generation succeeds exactly when everything fits -/
-theorem generateTlv_ok_iff (tl ll : Nat) (tp lp : Char) (d : List (Str × Str)) :
-    (∃ g, generateTlv tl ll tp lp d = .ok g) ↔ Fits tl ll d := by
+/-- the entries are written exactly when everything fits -/
+theorem genEntries_ok_iff (tl ll : Nat) (tp lp : Char) (d : List (Str × Str)) :
+    (∃ g, genEntries tl ll tp lp d = .ok g) ↔ Fits tl ll d := by
   induction d with
-  | nil => simp [generateTlv, Fits]
+  | nil => simp [genEntries, Fits]
   | cons e d ih =>
     obtain ⟨t, v⟩ := e
     constructor
     · rintro ⟨g, hg⟩
-      obtain ⟨h1, h2, r, hr, _⟩ := generateTlv_cons_ok hg
+      obtain ⟨h1, h2, r, hr, _⟩ := genEntries_cons_ok hg
       intro e he
       rcases List.mem_cons.mp he with h | h
       · subst h; exact ⟨h1, h2⟩
@@ -444,16 +444,16 @@ theorem generateTlv_ok_iff (tl ll : Nat) (tp lp : Char) (d : List (Str × Str)) 
       have h01 : t.length ≤ tl := h0.1
       have h02 : (decimal v.length).length ≤ ll := h0.2
       refine ⟨(ljust tl tp t ++ rjust ll lp (decimal v.length) ++ v) ++ r, ?_⟩
-      simp only [generateTlv, genEntry, h01, h02, if_true, hr]
+      simp only [genEntries, genEntry, h01, h02, if_true, hr]
 
-/-- the only way generation fails is `AssertionError` -/
-theorem generateTlv_error (tl ll : Nat) (tp lp : Char) (d : List (Str × Str)) (e : PyErr)
-    (h : generateTlv tl ll tp lp d = .error e) : e = .AssertionError := by
+/-- the only way writing the entries fails is `AssertionError` -/
+theorem genEntries_error (tl ll : Nat) (tp lp : Char) (d : List (Str × Str)) (e : PyErr)
+    (h : genEntries tl ll tp lp d = .error e) : e = .AssertionError := by
   induction d with
-  | nil => simp [generateTlv] at h
+  | nil => simp [genEntries] at h
   | cons x d ih =>
     obtain ⟨t, v⟩ := x
-    simp only [generateTlv] at h
+    simp only [genEntries] at h
     cases he : genEntry tl ll tp lp t v with
     | error e' =>
       rw [he] at h
@@ -466,26 +466,26 @@ theorem generateTlv_error (tl ll : Nat) (tp lp : Char) (d : List (Str × Str)) (
       · cases he; rfl
     | ok s =>
       rw [he] at h
-      cases hr : generateTlv tl ll tp lp d with
+      cases hr : genEntries tl ll tp lp d with
       | error e' => rw [hr] at h; cases h; exact ih hr
       | ok r => rw [hr] at h; cases h
 
 /-- parsing what was generated, started after any already consumed prefix -/
 theorem loop_generated {pyInt : Str → Option Int} {tl ll : Nat} {tp lp : Char}
     (hI : IntReads pyInt ll lp) (d : List (Str × Str)) (g : Str)
-    (hg : generateTlv tl ll tp lp d = .ok g) (pre : Str) (fuel : Nat) (hf : d.length < fuel) :
+    (hg : genEntries tl ll tp lp d = .ok g) (pre : Str) (fuel : Nat) (hf : d.length < fuel) :
     let r := loop (step pyInt (pre ++ g) tl ll) (pre ++ g).length fuel pre.length
     r.status = .done ∧ r.off = (pre ++ g).length ∧ r.trips.map Trip.view = d.map (expected tl tp) := by
   induction d generalizing g pre fuel with
   | nil =>
-    simp only [generateTlv] at hg
+    simp only [genEntries] at hg
     cases hg
     cases fuel with
     | zero => simp at hf
     | succ fuel => simp [loop]
   | cons e d ih =>
     obtain ⟨t, v⟩ := e
-    obtain ⟨h1, h2, r, hr, rfl⟩ := generateTlv_cons_ok hg
+    obtain ⟨h1, h2, r, hr, rfl⟩ := genEntries_cons_ok hg
     cases fuel with
     | zero => simp at hf
     | succ fuel =>
@@ -510,17 +510,43 @@ theorem loop_generated {pyInt : Str → Option Int} {tl ll : Nat} {tp lp : Char}
       rfl
 
 theorem generated_length {tl ll : Nat} {tp lp : Char} {d : List (Str × Str)} {g : Str}
-    (hg : generateTlv tl ll tp lp d = .ok g) : d.length ≤ g.length := by
+    (hg : genEntries tl ll tp lp d = .ok g) : d.length ≤ g.length := by
   induction d generalizing g with
   | nil => simp
   | cons e d ih =>
     obtain ⟨t, v⟩ := e
-    obtain ⟨_, h2, r, hr, rfl⟩ := generateTlv_cons_ok hg
+    obtain ⟨_, h2, r, hr, rfl⟩ := genEntries_cons_ok hg
     have := ih hr
     have hpos := Nat.length_toDigits_pos (b := 10) (n := v.length)
     have hB := rjust_length ll lp (decimal v.length) h2
     unfold decimal at h2
     simp only [List.length_cons, List.length_append]
     omega
+
+/-! ### the argument check on `len_padding` (fix C16-c) -/
+
+/-- an accepted padding is `'0'` or a character `int()` strips -/
+theorem lenPadOk_reads {lp : Char} (h : lenPadOk lp = true) : lp = '0' ∨ isIntSpace lp = true := by
+  unfold lenPadOk at h
+  simp only [Bool.or_eq_true, decide_eq_true_eq] at h
+  rcases h with (((((h | h) | h) | h) | h) | h) | h
+  · exact Or.inl h
+  all_goals (subst h; exact Or.inr (by decide))
+
+theorem generateTlv_accepted {lp : Char} (h : lenPadOk lp = true) (tl ll : Nat) (tp : Char)
+    (d : List (Str × Str)) : generateTlv tl ll tp lp d = genEntries tl ll tp lp d := by
+  simp [generateTlv, h]
+
+theorem generateTlv_refused {lp : Char} (h : lenPadOk lp = false) (tl ll : Nat) (tp : Char)
+    (d : List (Str × Str)) : generateTlv tl ll tp lp d = .error .AssertionError := by
+  simp [generateTlv, h]
+
+/-- whatever `generate_tlv` returns was written by the entry loop under an accepted padding -/
+theorem generateTlv_ok {tl ll : Nat} {tp lp : Char} {d : List (Str × Str)} {g : Str}
+    (h : generateTlv tl ll tp lp d = .ok g) : lenPadOk lp = true ∧ genEntries tl ll tp lp d = .ok g := by
+  unfold generateTlv at h
+  split at h
+  · exact ⟨‹_›, h⟩
+  · cases h
 
 end N0.Tlv
